@@ -371,7 +371,7 @@ func (s *stream) pumpHostToRenter() {
 	silent := false
 	hostGone := false
 	for i, mk := range s.table.host {
-		m := &Msg{Stream: s.id, RPC: s.rpc, Name: s.table.name, Dir: HostToRenter, Index: i}
+		m := &Msg{Stream: s.id, RPC: s.rpc, Name: s.table.name, Dir: HostToRenter, Index: i, RenterClosed: s.mr.PeerClosed()}
 		m.Obj = mk()
 		if hostGone {
 			m.Synthetic = true
